@@ -249,9 +249,9 @@ def correspondence(run, runs, args, stats):
             return False, n, "status/iterations/samples: implementation %s/%d/%d, model %s/%d/%d" % (STATUS.get(r["status"]), r["it"], r["samples"], STATUS.get(mst, mst), mit, mns), margin
         if not all(cl(u, v, tl) for u, v in zip(r["x"], mx)):
             return False, n, "returned x: %s, model %s" % (r["x"], mx), margin
-        if r["status"] not in (6, 7) and not (cl(r["rep"], mc) and cl(r["startrep"], msc)):
+        if r["status"] not in (6, 7) and not (cl(r["rep"], mc, tl) and cl(r["startrep"], msc)):
             return False, n, "reported cost / start cost: %.17g / %.17g, model %.17g / %.17g" % (r["rep"], r["startrep"], mc, msc), margin
-        if r["status"] not in (6, 7) and not cl(r["gn"], mgn, 1e-5):
+        if r["status"] not in (6, 7) and not cl(r["gn"], mgn, max(1e-5, 100 * tl)):
             return False, n, "gradient norm: %.17g, model %.17g" % (r["gn"], mgn), margin
         return True, n, "", margin
 
